@@ -99,10 +99,20 @@ def replay(case):
         from opendsm.eemeter.models.billing.model import BillingModel
         cls = BillingModel if case["family"] == "billing" else DailyModel
         doc = param_doc(case["family"], case["shape"], case["split"], case["warn"])
-        m1 = cls.from_dict(json.loads(json.dumps(doc)))
+        pristine = json.loads(json.dumps(doc))
+        given = json.loads(json.dumps(doc))
+        m1 = cls.from_dict(given)
         m2 = cls.from_json(m1.to_json())
         df = grid_frame()
         bad = compare_models(m1, m2, lambda m: m._predict(df.copy()))
+        # the stored document itself is reproduced (first generation), and reading it does not rewrite it
+        again = json.loads(m1.to_json())
+        if again != pristine:
+            keys = [k for k in pristine if again.get(k) != pristine[k]]
+            bad.append(f"document read and written again differs from the stored document in {keys}: " +
+                       _first_diff(json.dumps(pristine, sort_keys=True), json.dumps(again, sort_keys=True)))
+        if given != pristine:
+            bad.append("from_dict modified the document it was given")
         return {"ok": not bad, "differences": bad}
     if kind == "fit":
         m1, predict, cls = fitted(case["family"], case.get("profile", "current"))
@@ -139,11 +149,14 @@ def fitted(family, profile="current"):
             rep = em.BillingReportingData.from_series(meter, temp, is_electricity_data=True)
             m = em.BillingModel().fit(data, ignore_disqualification=True)
             out = (m, lambda mm: mm.predict(rep, ignore_disqualification=True), em.BillingModel)
-    elif family == "hourly":
+    elif family in ("hourly", "hourly_solar"):
         meter, temp, meta = load_sample("il-electricity-cdd-hdd-hourly")
         df = pd.concat([meter.rename(columns={"value": "observed"}), temp.rename("temperature")], axis=1).dropna()
-        base = em.HourlyBaselineData(df.iloc[: 24 * 100], is_electricity_data=True)
-        rep = em.HourlyReportingData(df.iloc[24 * 100: 24 * 160], is_electricity_data=True)
+        if family == "hourly_solar":
+            h = df.index.hour.values
+            df["ghi"] = np.clip(np.sin((h - 12) / 12 * np.pi), 0, None) * 800 + 5.0
+        base = em.HourlyBaselineData(df.iloc[: 24 * 120], is_electricity_data=True)
+        rep = em.HourlyReportingData(df.iloc[24 * 120: 24 * 170], is_electricity_data=True)
         m = em.HourlyModel().fit(base, ignore_disqualification=True)
         out = (m, lambda mm: mm.predict(rep, ignore_disqualification=True), em.HourlyModel)
     elif family == "caltrack_hourly":
@@ -176,9 +189,9 @@ def run(tier="quick", seed=0):
                         continue
                     case = {"kind": "params", "family": family, "shape": shape, "split": split, "warn": warn}
                     _one(b, case, (family, shape, split, warn))
-    fits = [("daily", "current")]
+    fits = [("daily", "current"), ("hourly", "current"), ("hourly_solar", "current"), ("daily", "legacy")]
     if tier == "thorough":
-        fits += [("daily", "legacy"), ("billing", "current"), ("hourly", "current"), ("caltrack_hourly", "current")]
+        fits += [("billing", "current"), ("caltrack_hourly", "current")]
     for family, profile in fits:
         case = {"kind": "fit", "family": family, "profile": profile}
         known = "C01-legacy-profile-reload" if (family, profile) == ("daily", "legacy") else None
